@@ -287,6 +287,36 @@ def run(tier):
             res.violation("shape:" + shape,
                           f"arguments `{small}`: derive_more splits {rr['impl']}, Rust's grammar (syn full) splits {rr['oracle']}; shrunk from `{orig}`",
                           {"cmd": "split", "source": small, "original": orig, "impl": rr["impl"], "oracle": rr["oracle"]})
+        # how the derive *uses* the split: `{v}` with an explicit `v = <expr>` denotes that argument (as for format_args!),
+        # and only an argument that is a single identifier counts as a reference to the field of that name
+        NONIDENT = ["1 + 2", "f(v)", "v.clone()", "&v", "(v)", "v as u8", "{ v }", "-v", "v?", "v[0]", "v.0", "x::v", "v::<u8>()", "|v| v",
+                    "*v", "!v", "v..", "v + 0", "self.v", "Some(v)", "v == v", "if true { v } else { v }", "[v]", "(v,)", "v.w", "w::v::<T>",
+                    "f::<A, B>(v)", "v as M<K, V>", "<v as T<B, C>>::X"]
+        use_cases = []
+        for e in NONIDENT:
+            use_cases.append((f'#[display("{{v}}", v = {e})] struct S<T> {{ v: T, w: u8 }}', False, e, "alias"))
+            use_cases.append((f'#[display("{{}}", {e})] struct S<T> {{ v: T, w: u8 }}', False, e, "positional"))
+            use_cases.append((f'#[display("{{0}} {{1}}", 1, {e})] struct S<T> {{ v: T, w: u8 }}', False, e, "indexed"))
+            use_cases.append((f'#[display("{{n}}", n = {e})] struct S<T> {{ v: T, w: u8 }}', False, e, "other-alias"))
+        for e in ["v", "r#v"]:
+            use_cases.append((f'#[display("{{v}}", v = {e})] struct S<T> {{ v: T, w: u8 }}', True, e, "alias"))
+            use_cases.append((f'#[display("{{}}", {e})] struct S<T> {{ v: T, w: u8 }}', True, e, "positional"))
+            use_cases.append((f'#[display("{{n}} {{1}}", 1, {e}, n = 2)] struct S<T> {{ v: T, w: u8 }}', True, e, "indexed"))
+            use_cases.append((f'#[display("{{n}}", n = {e})] struct S<T> {{ v: T, w: u8 }}', True, e, "other-alias"))
+        use_cases.append(('#[display("{w}", w = v)] struct S<T> { v: T, w: u8 }', True, "v", "alias-of-other-field"))
+        use_cases.append(('#[display("{v}", v = w)] struct S<T> { v: T, w: u8 }', False, "w", "alias-of-other-field"))
+        uans = C.drive(inproc, [f"expand Display {C.hexs(src)}" for src, _, _, _ in use_cases])
+        n_use = 0
+        for (src, want_bound, e, how), ans in zip(use_cases, uans):
+            if not ans.startswith("ok"):
+                continue            # (an expression the attribute parser does not take is the scanner's business, above)
+            n_use += 1
+            has = bool(re.search(r"where\s*T\s*:", ans)) or "where T :" in ans
+            if has != want_bound:
+                res.violation(f"use:{how}:{e}", f"`{src}`: the argument `{e}` ({how}) is " +
+                              ("not treated as the field it names: no bound on T" if want_bound else "treated as a reference to field `v`: the impl is bounded by `T: Display`") +
+                              "; only a single identifier counts as a field reference, and `{v}` with an explicit `v = ..` denotes that argument",
+                              {"cmd": "expand Display", "source": src, "expansion": ans[:1200]})
         extra = [("correspondence: scanner model == working-tree FmtAttribute parsing on every token stream", lean_ok and not corr_bad)]
         cov = {
             "evaluations": len(srcs),
@@ -295,7 +325,7 @@ def run(tier):
             "traces_validated_against_impl": len(srcs),
             "model_vs_impl_disagreements": len(corr_bad),
             "distribution": {"lists": len(srcs), "accepted_by_rust_grammar": n_oracle_ok, "with_two_or_more_arguments": multi,
-                             "failing": len(failing), "explained_by_known_constructs": len(failing) - len(unexplained),
+                             "argument_use_cases": n_use, "failing": len(failing), "explained_by_known_constructs": len(failing) - len(unexplained),
                              "unexplained_shapes": len(shapes)},
             "samples": [{"source": r["src"], "impl": r["impl"], "syn_full": r["oracle"]} for r in results[:4]],
         }
